@@ -123,8 +123,25 @@ theorem C09_remove_title_missing_refused (o : Opt) (t : Bytes) (h : gettsecidx o
 theorem C09_addtsec_existing_refused (orc : Oracle) (k : Nat) (c : Cfg) (path t : Bytes) (r : OptRef) (o : Opt) (i : Nat)
     (hr : (getoptPath c path).ref = some r) (ho : c.getOpt r = some o) (hs : o.ty = .sec) (ht : o.flags.title = true)
     (hex : gettsecidx o t = some i) :
-    (apiAddtsec orc k c path t).cfg = c ∧ (apiAddtsec orc k c path t).rc = -1 := by
+    (apiAddtsec orc k c path (some t)).cfg = c ∧ (apiAddtsec orc k c path (some t)).rc = -1 := by
   unfold apiAddtsec
   simp [hr, ho, hs, ht, hex]
+
+/-- **wrong type**: adding a section to an option that is not a section fails without effect (fix F37: the
+library stored the title as the option's value and then followed it as a pointer) -/
+theorem C09_addtsec_wrong_type (orc : Oracle) (k : Nat) (c : Cfg) (path : Bytes) (t : Option Bytes) (r : OptRef) (o : Opt)
+    (hr : (getoptPath c path).ref = some r) (ho : c.getOpt r = some o) (hs : o.ty ≠ .sec) :
+    (apiAddtsec orc k c path t).cfg = c ∧ (apiAddtsec orc k c path t).rc = -1 := by
+  unfold apiAddtsec
+  cases t <;> simp [hr, ho, hs]
+
+/-- **an add never replaces**: a title that `cfg_setopt` would match under the context's case rule is refused,
+whatever the option's own flags say (fix F37: under a case-insensitive context `FOO` replaced `foo`) -/
+theorem C09_addtsec_never_replaces (orc : Oracle) (k : Nat) (c : Cfg) (path t : Bytes) (r : OptRef) (o : Opt) (i : Nat)
+    (hr : (getoptPath c path).ref = some r) (ho : c.getOpt r = some o) (hs : o.ty = .sec) (ht : o.flags.title = true)
+    (hex : findTitle c.info.flags.nocase t o.vals 0 = some i) :
+    (apiAddtsec orc k c path (some t)).cfg = c ∧ (apiAddtsec orc k c path (some t)).rc = -1 := by
+  unfold apiAddtsec
+  by_cases hg : (gettsecidx o t).isSome = true <;> simp [hr, ho, hs, ht, hex, hg]
 
 end Confuse
